@@ -9,7 +9,6 @@ package db
 import (
 	"errors"
 	"fmt"
-	"reflect"
 	"strings"
 
 	"github.com/alicebob/sqlittle/sql"
@@ -236,11 +235,11 @@ func (st *Schema) toIndexColumns(ci []sql.IndexedColumn) []IndexColumn {
 // add an index. This is a noop if an equivalent index already exists. Returns
 // whether the indexed got added.
 func (st *Schema) addIndex(pk bool, name string, cols []IndexColumn) bool {
-	if reflect.DeepEqual(st.PK, cols) {
+	if sameIndexColumns(st.PK, cols) {
 		return false
 	}
 	for _, ind := range st.Indexes {
-		if reflect.DeepEqual(ind.Columns, cols) {
+		if sameIndexColumns(ind.Columns, cols) {
 			if pk {
 				st.PrimaryKey = ind.Index
 			}
@@ -261,13 +260,36 @@ func (st *Schema) addIndex(pk bool, name string, cols []IndexColumn) bool {
 func (st *Schema) setPK(cols []IndexColumn) {
 	st.PK = cols
 	for i, ind := range st.Indexes {
-		if reflect.DeepEqual(ind.Columns, cols) {
+		if sameIndexColumns(ind.Columns, cols) {
 			st.Indexes = append(st.Indexes[:i], st.Indexes[i+1:]...)
 			if len(st.Indexes) == 0 {
 				st.Indexes = nil // to make test diffs easier
 			}
 		}
 	}
+}
+
+// sameIndexColumns is true if SQLite would consider an automatic index on
+// these columns a duplicate: same columns with the same collations. The sort
+// order is not relevant.
+func sameIndexColumns(a, b []IndexColumn) bool {
+	if len(a) != len(b) || len(a) == 0 {
+		return false
+	}
+	norm := func(c string) string {
+		if c == "" {
+			return "binary"
+		}
+		return strings.ToLower(c)
+	}
+	for i := range a {
+		if !strings.EqualFold(a[i].Column, b[i].Column) ||
+			a[i].Expression != b[i].Expression ||
+			norm(a[i].Collate) != norm(b[i].Collate) {
+			return false
+		}
+	}
+	return true
 }
 
 // Returns the index of the named column, or -1.
